@@ -172,4 +172,17 @@ PROPS = {
             "recursive spec functions nearest/exact/chain_workdir read the heap; they are only used in functions that are proved not to write those fields (frame obligations)",
         ],
     },
+    "C32": {
+        "category": "other",
+        "harness_modes": ["crosscheck"],
+        "explanation": "Fragment. remap_path is proved equal to its functional description over abstract path functions (plain path: rebase of the unquoted relative path; "
+        "file:// location: the same under the file:// prefix; any other URL scheme: unchanged). Lemmas over that contract and the trusted os.path/urllib axioms: remapping "
+        "there and back restores plain paths and file:// locations whose names contain no %XX escape; other schemes are unchanged. The statement's clause for names "
+        "containing percent signs does NOT hold (recorded finding KF-C32-percent-names, lemma roundtrip_any_name). NOT decided by proof: remap_token_value's recursion through "
+        "secondaryFiles, listing, arrays and records (dynamic JSON values with `match` on their class: outside the subset) — covered by the bounded run-time round trips only.",
+        "assumptions": [
+            "A-OSPATH rebase_inverts_relpath, rebase_lands_under; A-URLLIB unquote_identity; A-STR contains_is_plain, file_url_shape — validated against CPython on every run",
+            "idiom rewrite: path_processor.join(d, *rel.split(sep)) is read as join-of-split(d, rel, sep) (assumed contract over the unsplit string)",
+        ],
+    },
 }
